@@ -3,7 +3,8 @@
 U1 group-less keys are listed whether or not the file has sections      U2 exit status non-zero exactly when the library read failed; error location printed
 U3 cat walks the whole history in order                                   U4 show / syntax / cat read with the same six arguments
 U5 no argv data overruns or is cut in a fixed buffer (= C14 on util/)
-U6 option arguments reach the library whole   U7 one single-file test   U8 in-place text edits keep the terminator"""
+U6 option arguments reach the library whole   U7 one single-file test   U8 in-place text edits keep the terminator
+U9 the library listings the tool prints from are complete and ordered (= C11.A7)"""
 from sa.ast import render
 from sa.facts import Inconclusive
 from sa import query, loops
@@ -399,6 +400,16 @@ def run(prog, ctx):
     u6_u8(prog, ctx)
     from rules import C14
     from sa.report import Ctx
+    # U9: what the tool prints is what the listings of the library return: every section and every key of a section, in order (= C11.A7)
+    from rules import C11 as _C11
+    sub9 = Ctx(ctx.prop, ctx.tier, prog)
+    try:
+        _C11.a7(prog, sub9)
+        for ob in sub9.obs:
+            ob.rule = "U9"
+            ctx.obs.append(ob)
+    except Inconclusive as e:
+        ctx.inconclusive("U9", "the listings the tool prints from are complete", "", str(e))
     sub = Ctx(ctx.prop, ctx.tier, prog)
     C14.judge(prog, sub, True)
     for ob in sub.obs:
